@@ -932,7 +932,12 @@ class Exec:
         lo = self.clamp(st, L, self.eval(sl.lower, st).term) if sl.lower else z3.IntVal(0)
         hi = self.clamp(st, L, self.eval(sl.upper, st).term) if sl.upper else L
         n = hi - lo if self.known(st, hi >= lo) else z3.If(hi - lo > 0, hi - lo, 0)
-        return VSeq(z3.Extract(base.term, z3.simplify(lo), z3.simplify(n)), base.elem, base.kind)
+        lo_s, n_s = z3.simplify(lo), z3.simplify(n)
+        if z3.is_int_value(lo_s) and lo_s.as_long() == 0 and n_s.eq(z3.simplify(L)):
+            return VSeq(base.term, base.elem, base.kind)  # x[:len(x)] is x
+        r = z3.Extract(base.term, lo_s, n_s)
+        st.facts.append(z3.Implies(z3.And(lo_s == 0, n_s == L), r == base.term))
+        return VSeq(r, base.elem, base.kind)
 
     def e_Call(self, n, st):
         from .calls import do_call
@@ -1151,8 +1156,15 @@ class Exec:
             i = idx.term
             self.need(st, z3.And(i >= -L, i < L), "IndexError", target, "sequence store index")
             j = z3.simplify(self.pyindex(st, L, i))
-            t = z3.Concat(z3.Extract(cur.term, z3.IntVal(0), j), z3.Unit(self.term_of(v, cur.elem)),
+            x = self.term_of(v, cur.elem)
+            t = z3.Concat(z3.Extract(cur.term, z3.IntVal(0), j), z3.Unit(x),
                           z3.Extract(cur.term, j + 1, L - j - 1))
+            # valid consequences of the store that the sequence solvers do not always derive by themselves
+            inb = z3.And(j >= 0, j < L)
+            st.facts.append(z3.Implies(inb, z3.And(z3.Length(t) == L,
+                                                   z3.Extract(t, z3.IntVal(0), j) == z3.Extract(cur.term, z3.IntVal(0), j),
+                                                   z3.Extract(t, z3.IntVal(0), j + 1) == z3.Concat(z3.Extract(cur.term, z3.IntVal(0), j), z3.Unit(x)),
+                                                   t[j] == x)))
             return VSeq(t, cur.elem, cur.kind)
         if isinstance(cur, VDict):
             idx = self.eval(target.slice, st)
